@@ -17,7 +17,7 @@ mv /tmp/aside_$name/seeded_demo.rs tests/
 if grep -q "verif_\|nlnetlabs_routecore_verif" tests/seeded_demo.rs; then export RUSTFLAGS="--cfg nlnetlabs_routecore_verif"; fi
 cargo test --offline $F --test seeded_demo >> $log 2>&1; s2=$?
 # 3. demo without the change
-git stash -q -- src
+git checkout -- src        # (no git stash: the stash is shared between worktrees)
 cargo test --offline $F --test seeded_demo >> $log 2>&1; s3=$?
-git stash pop -q
+git apply $out/patch.diff
 echo "suite_with_change=$s1 demo_with_change=$s2 demo_without_change=$s3" | tee $out/confirm.txt
